@@ -63,6 +63,10 @@ let proj_str (h : nat -> z) : str =
   let f i = string_of_z (h (nat_of_int i)) in
   S.concat " " [f 9; f 10; f 11; f 12; f 13; f 14; f 15; f 16; f 17; f 18; f 19; f 20; f 21; f 22; f 23; f 24; f 8]
 
+let coq_string_to_ocaml (s : Model.string) : str =
+  let rec go acc = function EmptyString -> acc | String (c, r) -> go (acc ^ S.make 1 (Char.chr (int_of_n (n_of_ascii c)))) r in go "" s
+let opt_str = function None -> "-" | Some s -> S.concat "" (S.split_on_char ' ' (coq_string_to_ocaml s))
+
 let run_case (line:str) : str =
   let ts = { t = L.filter (fun s -> s <> "") (S.split_on_char ' ' line) } in
   match tok ts with
@@ -177,6 +181,29 @@ let run_case (line:str) : str =
      | BOk b -> "ok " ^ hex_of_bytes b
      | BRefresh st -> "refresh " ^ string_of_n st
      | BErr st -> "err " ^ string_of_n st)
+  | "http" ->
+    let public = bytes_of_hex (tok ts) in
+    let m = (match tok ts with "G" -> MGet | "H" -> MHead | _ -> MOther) in
+    let path = bytes_of_hex (tok ts) in
+    let c = (match tok ts with "n" -> HNone | "ins" -> HIfNoneMatchSame | "ino" -> HIfNoneMatchOther | "inx" -> HIfNoneMatchStar
+                           | "ims" -> HIfMatchSame | _ -> HIfMatchOther) in
+    let _ = ti ts in let _ = ti ts in
+    let a = parse_arch ts in
+    let w = [(L.map n_of_int [97], a)] in
+    let r = serve_http w public m path c in
+    let tt = a.a_hdr (nat_of_int 15) in
+    let unknown_tt = (match tt with Zpos p -> int_of_pos p > 5 | _ -> true) in
+    let is_tile = (match route_of path with RTile _ -> true | _ -> false) in
+    let st = int_of_n r.rs_status in
+    if st = 200 then
+      S.concat " " ["200"; (if unknown_tt && is_tile then "?" else opt_str r.rs_ctype); opt_str r.rs_cenc; (if r.rs_etag then "1" else "0");
+        (match r.rs_body with
+         | BNone -> "-"
+         | BBytes b -> hex_of_bytes b
+         | BTileJSON t -> S.concat " " (["tj"; hex_of_bytes t.tj_tiles; string_of_z t.tj_minzoom; string_of_z t.tj_maxzoom]
+                             @ L.map string_of_z t.tj_bounds @ L.map string_of_z t.tj_center))]
+    else if st = 304 then "304 - - " ^ (if r.rs_etag then "1" else "0") ^ " -"
+    else Printf.sprintf "%d - - 0 -" st
   | op -> "unknown-op " ^ op
 
 let () =
